@@ -15,3 +15,8 @@ pub assume_specification<T, F: FnOnce(T) -> bool> [Option::<T>::is_none_or] (o: 
 pub assume_specification<T, F: FnOnce(T) -> bool> [Option::<T>::is_some_and] (o: Option<T>, f: F) -> (r: bool)
     requires o is Some ==> call_requires(f, (o->0,)),
     ensures o is None ==> !r, o is Some ==> call_ensures(f, (o->0,), r);
+// u32::abs_diff / u64::abs_diff: the absolute difference (std documentation)
+pub assume_specification [u32::abs_diff] (a: u32, b: u32) -> (r: u32)
+    ensures r == (if a >= b { a - b } else { b - a });
+pub assume_specification [u64::abs_diff] (a: u64, b: u64) -> (r: u64)
+    ensures r == (if a >= b { a - b } else { b - a });
